@@ -75,7 +75,8 @@ Lemma step_facts (P : params) (t : lo) (s : sh) (t' : lo) (s' : sh) :
   l_me t' = l_me t /\ l_kind t' = l_kind t
   /\ (expired s = true -> expired s' = true)
   /\ (crit t = false -> crit t' = true -> claim s = false /\ claim s' = true)
-  /\ (claim s = true -> claim s' = false -> expired s' = false -> (crit t = true /\ crit t' = false) \/ in_purge t = true)
+  /\ (claim s = true -> claim s' = false -> expired s' = false ->
+      (crit t = true /\ crit t' = false) \/ in_purge t = true \/ (claim_dl s < p_win P)%N)
   /\ (in_purge t' = true -> in_purge t = true \/ expired s = true)
   /\ (l_kind t = KList -> expired s = false -> in_purge t = false ->
       by_code s' = by_code s /\ by_id s' = by_id s /\ claim s' = claim s /\ mains s' = mains s)
@@ -87,14 +88,14 @@ Lemma step_facts (P : params) (t : lo) (s : sh) (t' : lo) (s' : sh) :
   /\ (forall m, okres t' = Some m -> (okres t = Some m /\ can_win t' = can_win t) \/ (m = l_me t /\ can_win t' = true)).
 Proof.
   destruct t as [me k p snap f e]. unfold tstep. cbn [l_kind].
-  destruct k as [l la ok | | | ].
+  destruct k as [l la ok | | | | d].
   - (* activator *)
     unfold act_step; cbn [l_pc l_me l_fault l_snap l_err].
     destruct p as [| | | | | | | | | | | | | | e0 | | r | | r | | | | | | |]; try (destruct r as [m0| | | |e1| |]);
       cbn [use_claim create_cleanup use_adm Current leave fin];
       break_step; intros H; inversion H; subst; clear H;
       cbn [crit can_win has_rec okres in_purge mk_rec l_kind l_pc l_me set_pc set_snap set_fault set_err finish
-           expired claim mains by_code by_id set_claim set_adm set_tidx set_mains set_glob set_cidx set_by_code set_by_id del_main];
+           expired claim mains by_code by_id set_claim set_claim_dl set_clock set_adm set_tidx set_mains set_glob set_cidx set_by_code set_by_id del_main];
       (split; [reflexivity|]); (split; [reflexivity|]);
       repeat match goal with |- _ /\ _ => split end;
       try (intros; try discriminate; try congruence; auto; fail);
@@ -108,7 +109,7 @@ Proof.
       cbn [use_claim create_cleanup use_adm Current rleave];
       break_step; intros H; inversion H; subst; clear H;
       cbn [crit can_win has_rec okres in_purge mk_rec l_kind l_pc l_me set_pc set_snap set_fault set_err finish
-           expired claim mains by_code by_id set_claim set_adm set_tidx set_mains set_glob set_cidx set_by_code set_by_id del_main];
+           expired claim mains by_code by_id set_claim set_claim_dl set_clock set_adm set_tidx set_mains set_glob set_cidx set_by_code set_by_id del_main];
       (split; [reflexivity|]); (split; [reflexivity|]);
       repeat match goal with |- _ /\ _ => split end;
       try (intros; try discriminate; try congruence; auto; fail);
@@ -129,12 +130,63 @@ Proof.
       cbn [use_claim create_cleanup use_adm purge_revoked Current andb];
       break_step; intros H; inversion H; subst; clear H;
       cbn [crit can_win has_rec okres in_purge mk_rec l_kind l_pc l_me set_pc set_snap set_fault set_err finish
-           expired claim mains by_code by_id set_claim set_adm set_tidx set_mains set_glob set_cidx set_by_code set_by_id del_main];
+           expired claim mains by_code by_id set_claim set_claim_dl set_clock set_adm set_tidx set_mains set_glob set_cidx set_by_code set_by_id del_main];
       (split; [reflexivity|]); (split; [reflexivity|]);
       repeat match goal with |- _ /\ _ => split end;
       try (intros; try discriminate; try congruence; auto; fail);
       try (left; split; reflexivity);
       try (intros m Hm; inversion Hm; subst; auto; fail).
+  - (* stall: the clock advances *)
+    cbn [l_pc].
+    destruct p as [| | | | | | | | | | | | | | e0 | | r | | r | | | | | | |]; try (destruct r as [m0| | | |e1| |]);
+      cbn beta iota; try (destruct (p_win P <=? now s + d)%N eqn:E);
+      intros H; inversion H; subst; clear H;
+      cbn [crit can_win has_rec okres in_purge mk_rec l_kind l_pc l_me set_pc finish expired claim mains by_code by_id
+           set_expired set_clock claim_dl now];
+      (split; [reflexivity|]); (split; [reflexivity|]);
+      repeat match goal with |- _ /\ _ => split end;
+      try (intros; try discriminate; try congruence; auto; fail);
+      try (left; split; reflexivity);
+      try (intros m Hm; inversion Hm; subst; auto; fail);
+      try (intros Hc Hc' _; right; right; rewrite Hc in Hc'; cbn in Hc'; apply N.ltb_ge in Hc'; apply N.leb_gt in E; lia).
+Qed.
+
+(* the deadline of a claim marker that is set: either it was set before and is unchanged, or it has just been taken and
+   reaches (at least) the end of the activation window *)
+Lemma step_dl (P : params) (t : lo) (s : sh) (t' : lo) (s' : sh) :
+  tstep Current P t s = (t', s') ->
+  claim s' = true -> (claim s = true /\ claim_dl s' = claim_dl s) \/ (p_win P <= claim_dl s')%N.
+Proof.
+  destruct t as [me k p snap f e]. unfold tstep. cbn [l_kind].
+  destruct k as [l la ok | | | | d].
+  - unfold act_step; cbn [l_pc l_me l_fault l_snap l_err].
+    destruct p as [| | | | | | | | | | | | | | e0 | | r | | r | | | | | | |];
+      cbn [use_claim create_cleanup use_adm Current leave fin];
+      break_step; intros H; inversion H; subst; clear H;
+      cbn [claim claim_dl now set_claim set_claim_dl set_clock set_adm set_tidx set_mains set_glob set_cidx set_by_code set_by_id del_main];
+      intros Hc; first [discriminate Hc | left; split; [first [exact Hc|reflexivity|assumption]|reflexivity] | right; unfold claim_ttl; cbn [claim_lease Current]; lia].
+  - unfold rev_step; cbn [l_pc l_me l_fault l_snap l_err].
+    destruct p as [| | | | | | | | | | | | | | e0 | | r | | r | | | | | | |];
+      cbn [use_claim create_cleanup use_adm Current rleave];
+      break_step; intros H; inversion H; subst; clear H;
+      cbn [claim claim_dl now set_claim set_claim_dl set_clock set_adm set_tidx set_mains set_glob set_cidx set_by_code set_by_id del_main];
+      intros Hc; first [discriminate Hc | left; split; [first [exact Hc|reflexivity|assumption]|reflexivity] | right; unfold claim_ttl; cbn [claim_lease Current]; lia].
+  - cbn [l_pc].
+    destruct p as [| | | | | | | | | | | | | | e0 | | r | | r | | | | | | |]; intros H; inversion H; subst; clear H;
+      cbn [claim claim_dl set_expired]; intros Hc; first [discriminate Hc | left; split; [first [exact Hc|reflexivity|assumption]|reflexivity] | right; unfold claim_ttl; cbn [claim_lease Current]; lia].
+  - unfold list_step; cbn [l_pc l_me l_fault l_snap l_err].
+    destruct p as [| | | | | | | | | | | | | | e0 | | r | | r | | | | | | |];
+      cbn [use_claim create_cleanup use_adm purge_revoked Current andb];
+      break_step; intros H; inversion H; subst; clear H;
+      cbn [claim claim_dl set_claim set_tidx set_by_code set_by_id];
+      intros Hc; first [discriminate Hc | left; split; [first [exact Hc|reflexivity|assumption]|reflexivity] | right; unfold claim_ttl; cbn [claim_lease Current]; lia].
+  - cbn [l_pc].
+    destruct p as [| | | | | | | | | | | | | | e0 | | r | | r | | | | | | |];
+      cbn beta iota; try (destruct (p_win P <=? now s + d)%N eqn:E);
+      intros H; inversion H; subst; clear H;
+      cbn [claim claim_dl set_expired set_clock]; intros Hc;
+      first [discriminate Hc | left; split; [first [exact Hc|reflexivity|assumption]|reflexivity]
+            | apply andb_prop in Hc; destruct Hc as [Hc _]; left; split; [exact Hc|reflexivity]].
 Qed.
 
 (* the entry of this caller's mapping may be in the global mapping list *)
@@ -153,20 +205,20 @@ Lemma step_glob (P : params) (t : lo) (s : sh) (t' : lo) (s' : sh) :
   \/ (glob s' = filter (not_i (l_me t)) (glob s) /\ has_glob t' = false).
 Proof.
   destruct t as [me k p snap f e]. unfold tstep. cbn [l_kind].
-  destruct k as [l la ok | | | ].
+  destruct k as [l la ok | | | | d].
   - unfold act_step; cbn [l_pc l_me l_fault l_snap l_err].
     destruct p as [| | | | | | | | | | | | | | e0 | | r | | r | | | | | | |]; try (destruct r as [m0| | | |e1| |]);
       cbn [use_claim create_cleanup use_adm Current leave fin];
       break_step; intros H; inversion H; subst; clear H;
       cbn [has_glob l_kind l_pc l_me set_pc set_snap set_fault set_err finish
-           glob set_claim set_adm set_tidx set_mains set_glob set_cidx set_by_code set_by_id del_main];
+           glob set_claim set_claim_dl set_clock set_adm set_tidx set_mains set_glob set_cidx set_by_code set_by_id del_main];
       try (left; split; reflexivity); try (right; left; split; reflexivity); try (right; right; split; reflexivity).
   - unfold rev_step; cbn [l_pc l_me l_fault l_snap l_err].
     destruct p as [| | | | | | | | | | | | | | e0 | | r | | r | | | | | | |]; try (destruct r as [m0| | | |e1| |]);
       cbn [use_claim create_cleanup use_adm Current rleave];
       break_step; intros H; inversion H; subst; clear H;
       cbn [has_glob l_kind l_pc l_me set_pc set_snap set_fault set_err finish
-           glob set_claim set_adm set_tidx set_mains set_glob set_cidx set_by_code set_by_id del_main];
+           glob set_claim set_claim_dl set_clock set_adm set_tidx set_mains set_glob set_cidx set_by_code set_by_id del_main];
       left; split; reflexivity.
   - cbn [l_pc].
     destruct p as [| | | | | | | | | | | | | | e0 | | r | | r | | | | | | |]; intros H; inversion H; subst; clear H;
@@ -177,6 +229,11 @@ Proof.
       break_step; intros H; inversion H; subst; clear H;
       cbn [has_glob l_kind l_pc l_me set_pc finish glob set_claim set_tidx set_by_code set_by_id];
       left; split; reflexivity.
+  - cbn [l_pc].
+    destruct p as [| | | | | | | | | | | | | | e0 | | r | | r | | | | | | |];
+      cbn beta iota; try (destruct (p_win P <=? now s + d)%N eqn:E);
+      intros H; inversion H; subst; clear H;
+      cbn [has_glob l_kind l_pc set_pc finish glob set_expired set_clock]; left; split; reflexivity.
 Qed.
 
 (* ---------- the invariant ---------- *)
@@ -204,7 +261,8 @@ Section Inv.
     inv_nodup : NoDup (map m_id (mains (fst s)));
     inv_ok : forall i t m, nth_error (snd s) i = Some t -> okres t = Some m -> m = l_me t /\ can_win t = true;
     inv_has : forall i t, nth_error (snd s) i = Some t -> has_rec t = true -> In (mk_rec P t) (mains (fst s));
-    inv_purge : forall i t, nth_error (snd s) i = Some t -> in_purge t = true -> expired (fst s) = true
+    inv_purge : forall i t, nth_error (snd s) i = Some t -> in_purge t = true -> expired (fst s) = true;
+    inv_dl : claim (fst s) = true -> (p_win P <= claim_dl (fst s))%N
   }.
 
   Lemma nth_upd_cases {A} (l : list A) i j x y :
@@ -234,7 +292,7 @@ Section Inv.
     destruct (step t (fst s)) as [t' s'] eqn:Hst.
     destruct (step_facts P t (fst s) t' s' Hst)
       as (Fme & Fkind & Fexp & Fenter & Frel & Fpur & _ & Fstay & Fwin & Fmains & Fok).
-    destruct HI as [Iids Ifree Icrit Iwin Iown Indup Iok Ihas Ipurge].
+    destruct HI as [Iids Ifree Icrit Iwin Iown Indup Iok Ihas Ipurge Idl].
     assert (Hexp0 : expired s' = false -> expired (fst s) = false).
     { intros H. destruct (expired (fst s)) eqn:E; [rewrite (Fexp eq_refl) in H; discriminate | reflexivity]. }
     constructor; cbn [fst snd].
@@ -252,10 +310,11 @@ Section Inv.
         * rewrite (Fstay eq_refl eq_refl) in Hcl. rewrite (Ifree Hexp0 Hcl _ _ Hi) in Ec. discriminate.
         * destruct (Fenter eq_refl eq_refl) as [_ Hc]. congruence.
       + destruct (claim (fst s)) eqn:Ecl.
-        * destruct (Frel eq_refl Hcl Hexp) as [[Hct _]|Hp].
+        * destruct (Frel eq_refl Hcl Hexp) as [[Hct _]|[Hp|Hlapse]].
           { destruct (crit ta) eqn:Eca; [|reflexivity]. exfalso. apply Hna.
             exact (Icrit Hexp0 _ _ _ _ Hi Ha' Hct Eca). }
           { rewrite (Ipurge _ _ Hi Hp) in Hexp0. discriminate. }
+          { exfalso. specialize (Idl eq_refl). lia. }   (* within the window a claim marker cannot lapse *)
         * exact (Ifree Hexp0 eq_refl _ _ Ha').
     - (* crit unique *)
       intros Hexp a b ta tb Ha Hb Hca Hcb. specialize (Hexp0 Hexp).
@@ -342,6 +401,8 @@ Section Inv.
       destruct (nth_upd_cases _ _ _ _ _ Ha) as [(<- & -> & _)|(Hna & Ha')].
       + destruct (Fpur Hp) as [Hold|He]; [apply Fexp; exact (Ipurge _ _ Hi Hold)|apply Fexp; exact He].
       + apply Fexp. exact (Ipurge _ _ Ha' Hp).
+    - (* a claim marker that is set reaches the end of the window *)
+      intros Hc. destruct (step_dl P t (fst s) t' s' Hst Hc) as [[Hold Hsame]|Hnew]; [rewrite Hsame; exact (Idl Hold)|exact Hnew].
   Qed.
 
   (* callers that have not started (or were rejected on their parameters) *)
@@ -349,7 +410,9 @@ Section Inv.
 
   Definition start_ok (s : st sh lo) : Prop :=
     mains (fst s) = [] /\ (forall t, In t (snd s) -> fresh t) /\
-    (forall i j ti tj, nth_error (snd s) i = Some ti -> nth_error (snd s) j = Some tj -> l_me ti = l_me tj -> i = j).
+    (forall i j ti tj, nth_error (snd s) i = Some ti -> nth_error (snd s) j = Some tj -> l_me ti = l_me tj -> i = j) /\
+    (* a claim marker present at the start (a code used / revoked earlier) lasts to the end of the window as well *)
+    (claim (fst s) = true -> (p_win P <= claim_dl (fst s))%N).
 
   Lemma fresh_classes t : fresh t -> crit t = false /\ can_win t = false /\ (forall m, okres t <> Some m).
   Proof.
@@ -358,7 +421,7 @@ Section Inv.
 
   Lemma inv_init s : start_ok s -> Inv s.
   Proof.
-    intros (Hm & Hf & Hids).
+    intros (Hm & Hf & Hids & Hdl).
     assert (F : forall i t, nth_error (snd s) i = Some t -> fresh t) by (intros i t H; apply Hf; eapply nth_error_In; exact H).
     constructor.
     - exact Hids.
@@ -372,6 +435,7 @@ Section Inv.
         destruct (l_kind t); discriminate.
     - intros i t Hi Hp. exfalso. destruct (F _ _ Hi) as [H|[e H]]; unfold in_purge in Hp; rewrite H in Hp;
         destruct (l_kind t); discriminate.
+    - exact Hdl.
   Qed.
 
   Theorem inv_all s sched : start_ok s -> Inv (srun s sched).
@@ -387,7 +451,7 @@ Section Inv.
       nth_error (snd (srun s sched)) i = Some ti -> nth_error (snd (srun s sched)) j = Some tj ->
       l_pc ti = PDone (ROk mi) -> l_pc tj = PDone (ROk mj) -> i = j.
   Proof.
-    intros H i j ti tj mi mj Hi Hj Hpi Hpj. destruct (inv_all s sched H) as [_ _ _ Iwin _ _ Iok _ _].
+    intros H i j ti tj mi mj Hi Hj Hpi Hpj. destruct (inv_all s sched H) as [_ _ _ Iwin _ _ Iok _ _ _].
     apply (Iwin i j ti tj Hi Hj); [apply (Iok _ _ _ Hi (okres_done _ _ Hpi)) | apply (Iok _ _ _ Hj (okres_done _ _ Hpj))].
   Qed.
 
@@ -407,7 +471,7 @@ Section Inv.
     length (mains (fst s')) <= 1 /\
     (forall m, In m (mains (fst s')) -> exists t, In t (snd s') /\ l_pc t = PDone (ROk (m_id m))).
   Proof.
-    intros H s' Hdone. destruct (inv_all s sched H) as [_ _ _ Iwin Iown Indup Iok _ _]. fold s' in Iwin, Iown, Indup, Iok.
+    intros H s' Hdone. destruct (inv_all s sched H) as [_ _ _ Iwin Iown Indup Iok _ _ _]. fold s' in Iwin, Iown, Indup, Iok.
     assert (W : forall m, In m (mains (fst s')) -> exists i t, nth_error (snd s') i = Some t /\ l_me t = m_id m /\ can_win t = true
                                                    /\ l_pc t = PDone (ROk (m_id m))).
     { intros m Hm. destruct (Iown m Hm) as (k & t & Hk & Hid & Hrec & _).
@@ -428,7 +492,7 @@ Section Inv.
     forall t e, In t (snd (srun s sched)) -> l_pc t = PDone (RErr e) ->
     forall m, In m (mains (fst (srun s sched))) -> m_id m <> l_me t.
   Proof.
-    intros H t e Ht Hpc m Hm Heq. destruct (inv_all s sched H) as [Iids _ _ _ Iown _ _ _ _].
+    intros H t e Ht Hpc m Hm Heq. destruct (inv_all s sched H) as [Iids _ _ _ Iown _ _ _ _ _].
     destruct (Iown m Hm) as (k & tk & Hk & Hid & Hrec & _).
     apply In_nth_error in Ht. destruct Ht as [j Hj].
     assert (k = j) by (apply (Iids _ _ _ _ Hk Hj); congruence). subst k.
@@ -441,7 +505,7 @@ Section Inv.
     m_target m = p_tgt P /\ m_taddr m = p_taddr P /\
     exists t ok, In t (snd (srun s sched)) /\ l_me t = m_id m /\ l_kind t = KAct (m_listen m) (m_laddr m) ok.
   Proof.
-    intros H m Hm. destruct (inv_all s sched H) as [_ _ _ _ Iown _ _ _ _].
+    intros H m Hm. destruct (inv_all s sched H) as [_ _ _ _ Iown _ _ _ _ _].
     destruct (Iown m Hm) as (k & t & Hk & Hid & _ & (ok & Hkind) & Ht & Ha).
     split; [exact Ht|]. split; [exact Ha|]. exists t, ok. split; [eapply nth_error_In; exact Hk|tauto].
   Qed.
@@ -454,7 +518,7 @@ Section Inv.
       m = l_me t /\
       In {| m_id := m; m_listen := l; m_laddr := la; m_target := p_tgt P; m_taddr := p_taddr P |} (mains (fst (srun s sched))).
   Proof.
-    intros H t m l la ok Ht Hk Hpc. destruct (inv_all s sched H) as [_ _ _ _ _ _ Iok Ihas _].
+    intros H t m l la ok Ht Hk Hpc. destruct (inv_all s sched H) as [_ _ _ _ _ _ Iok Ihas _ _].
     apply In_nth_error in Ht. destruct Ht as [i Hi].
     destruct (Iok _ _ _ Hi (okres_done _ _ Hpc)) as [-> _]. split; [reflexivity|].
     assert (Hrec : has_rec t = true) by (unfold has_rec; rewrite Hk, Hpc; reflexivity).
@@ -473,7 +537,7 @@ Section Inv.
       claim (snd (step t (fst (srun s sched)))) = claim (fst (srun s sched)) /\
       mains (snd (step t (fst (srun s sched)))) = mains (fst (srun s sched)).
   Proof.
-    intros H Hexp t Ht Hk. destruct (inv_all s sched H) as [_ _ _ _ _ _ _ _ Ipurge].
+    intros H Hexp t Ht Hk. destruct (inv_all s sched H) as [_ _ _ _ _ _ _ _ Ipurge _].
     apply In_nth_error in Ht. destruct Ht as [i Hi].
     assert (Hp : in_purge t = false).
     { destruct (in_purge t) eqn:E; [|reflexivity]. rewrite (Ipurge _ _ Hi E) in Hexp. discriminate. }
@@ -496,7 +560,7 @@ Section Inv.
       nth_error (snd (srun s sched)) i = Some ti -> nth_error (snd (srun s sched)) j = Some tj ->
       won ti -> won tj -> i = j.
   Proof.
-    intros H i j ti tj Hi Hj Wi Wj. destruct (inv_all s sched H) as [_ _ _ Iwin _ _ Iok _ _].
+    intros H i j ti tj Hi Hj Wi Wj. destruct (inv_all s sched H) as [_ _ _ Iwin _ _ Iok _ _ _].
     assert (W : forall k t, nth_error (snd (srun s sched)) k = Some t -> won t -> can_win t = true).
     { intros k t Hk [[Hkind Hpc]|[m Hpc]].
       - unfold can_win. rewrite Hkind, Hpc. reflexivity.
@@ -547,7 +611,7 @@ Section Inv.
   (* and one that is let in takes exactly its own client's marker; other clients' markers are untouched *)
   Theorem admission_is_per_client t s0 l la ok :
     l_kind t = KAct l la ok -> l_pc t = PAdm -> adm_held s0 l = false -> l_fault t <> Some 0 ->
-    l_pc (fst (step t s0)) = PQuota /\ admk (snd (step t s0)) = l :: admk s0.
+    l_pc (fst (step t s0)) = PQuota /\ admk (snd (step t s0)) = (l, (now s0 + adm_ttl)%N) :: admk s0.
   Proof.
     intros Hk Hp Ha Hf. unfold tstep, act_step. rewrite Hk, Hp.
     destruct (l_fault t) as [[|k]|]; cbn [tick_fault]; try congruence; rewrite Ha; split; reflexivity.
@@ -563,7 +627,7 @@ Section Inv.
       snd (step t (fst (srun s sched))) = fst (srun s sched) /\
       exists e, l_pc (fst (step t (fst (srun s sched)))) = PRelAdm (RErr e).
   Proof.
-    intros H Hexp (tr & Hin & Hk & Hp). destruct (inv_all s sched H) as [_ Ifree _ _ _ _ _ _ _].
+    intros H Hexp (tr & Hin & Hk & Hp). destruct (inv_all s sched H) as [_ Ifree _ _ _ _ _ _ _ _].
     assert (Hc : claim (fst (srun s sched)) = true).
     { apply not_false_iff_true. intros E.
       apply In_nth_error in Hin. destruct Hin as [i Hi].
@@ -611,7 +675,7 @@ Section Inv.
   Theorem failed_leaves_no_global_entry s sched : start_ok s -> glob (fst s) = [] ->
     forall t e, In t (snd (srun s sched)) -> l_pc t = PDone (RErr e) -> ~ In (l_me t) (glob (fst (srun s sched))).
   Proof.
-    intros H Hg t e Ht Hpc Hin. destruct (ginv_all s sched H Hg) as [[Iids _ _ _ _ _ _ _ _] HG].
+    intros H Hg t e Ht Hpc Hin. destruct (ginv_all s sched H Hg) as [[Iids _ _ _ _ _ _ _ _ _] HG].
     destruct (HG _ Hin) as (k & u & Hk & Hid & Hgl).
     apply In_nth_error in Ht. destruct Ht as [j Hj].
     assert (k = j) by (apply (Iids _ _ _ _ Hk Hj); exact Hid). subst k.
@@ -631,13 +695,31 @@ Section Inv.
        snd (step t (fst (srun s sched))) = fst (srun s sched) /\
        exists e, l_pc (fst (step t (fst (srun s sched)))) = PRelAdm (RErr e)).
   Proof.
-    intros H Hexp. destruct (inv_all s sched H) as [_ Ifree Icrit _ _ _ _ _ _].
+    intros H Hexp. destruct (inv_all s sched H) as [_ Ifree Icrit _ _ _ _ _ _ _].
     split; [exact (Icrit Hexp)|].
     intros (th & Hin & Hc).
     assert (Hcl : claim (fst (srun s sched)) = true).
     { apply not_false_iff_true. intros E. apply In_nth_error in Hin. destruct Hin as [i Hi].
       rewrite (Ifree Hexp E _ _ Hi) in Hc. discriminate. }
     split; [exact Hcl|]. intros t l la ok Hkt Hpt. exact (claim_held_turns_away t _ l la ok Hkt Hpt Hcl).
+  Qed.
+
+  (* TIME: d seconds pass at any point (a holder stalls, the clock goes on; markers and records whose lifetime has run
+     out vanish).  As long as the stall does not end the activation window, a claim marker that is set stays set —
+     whatever d and wherever the holder is parked.  So every theorem above, in particular claim_holder_excludes_others,
+     holds for schedules WITH stalls (KStall threads are ordinary threads of the schedule). *)
+  Theorem claim_cannot_lapse_within_window s sched : start_ok s ->
+    claim (fst (srun s sched)) = true ->
+    forall t d, l_kind t = KStall d -> expired (snd (step t (fst (srun s sched)))) = false ->
+      claim (snd (step t (fst (srun s sched)))) = true.
+  Proof.
+    intros H Hc t d Hk. destruct (inv_all s sched H) as [_ _ _ _ _ _ _ _ _ Idl]. specialize (Idl Hc).
+    remember (fst (srun s sched)) as sh0 eqn:Es. clear Es.
+    unfold tstep. rewrite Hk.
+    destruct (l_pc t) as [| | | | | | | | | | | | | | e0 | | r | | r | | | | | | |]; cbn beta iota zeta;
+      try (intros _; exact Hc);
+      (destruct (p_win P <=? now sh0 + d)%N eqn:E; cbn [snd expired set_expired set_clock claim];
+       [intros X; discriminate X|intros _; rewrite Hc; cbn; apply N.ltb_lt; apply N.leb_gt in E; lia]).
   Qed.
 
   (* connCode.Activate: an activation that has created its mapping but finds the activation period over at its commit
@@ -669,7 +751,7 @@ Section Inv.
 
   (* a code that is dead when the callers start never yields a mapping, whatever the schedule *)
   Definition quiet (t : lo) : Prop :=
-    fresh t \/ ((l_kind t = KTick \/ l_kind t = KList) /\ forall m, l_pc t <> PDone (ROk m)).
+    fresh t \/ ((l_kind t = KTick \/ l_kind t = KList \/ exists d, l_kind t = KStall d) /\ forall m, l_pc t <> PDone (ROk m)).
 
   Definition DeadInv (s : st sh lo) : Prop :=
     dead (by_code (fst s)) (expired (fst s)) = true /\ mains (fst s) = [] /\ forall t, In t (snd s) -> quiet t.
@@ -687,14 +769,14 @@ Section Inv.
     destruct (step t (fst s)) as [t' s'] eqn:Hst. cbn [fst snd].
     assert (Ht := Hf t (nth_error_In _ _ Hi)).
     assert (Goal : dead (by_code s') (expired s') = true /\ mains s' = [] /\ quiet t').
-    { unfold tstep in Hst. destruct (l_kind t) as [l la ok| | |] eqn:Hk.
-      - destruct Ht as [[Hp|[e Hp]]|[Ht _]]; [| |destruct Ht; congruence].
+    { unfold tstep in Hst. destruct (l_kind t) as [l la ok| | | |d] eqn:Hk.
+      - destruct Ht as [[Hp|[e Hp]]|[Ht _]]; [| |destruct Ht as [Ht|[Ht|[d0 Ht]]]; congruence].
         + destruct (dead_at_get_returns_error t (fst s) l la ok Hk Hp Hd) as [Es [e He]].
           unfold tstep in Es, He. rewrite Hk, Hst in Es, He. cbn [fst snd] in Es, He. subst s'.
           split; [exact Hd|]. split; [exact Hm|]. left. right. exists e. exact He.
         + unfold act_step in Hst. rewrite Hp in Hst. inversion Hst; subst.
           split; [exact Hd|]. split; [exact Hm|]. left. right. exists e. exact Hp.
-      - destruct Ht as [[Hp|[e Hp]]|[Ht _]]; [| |destruct Ht; congruence].
+      - destruct Ht as [[Hp|[e Hp]]|[Ht _]]; [| |destruct Ht as [Ht|[Ht|[d0 Ht]]]; congruence].
         + unfold rev_step in Hst. rewrite Hp in Hst. unfold dead in Hd.
           destruct (by_code (fst s)) as [r|] eqn:Eb.
           * destruct (c_act r) eqn:Ea.
@@ -731,8 +813,17 @@ Section Inv.
             (split; [reflexivity|]); (split; [try (intros m; discriminate); try (rewrite Hp; exact Q)|]);
             (split; [reflexivity|]); (split; [auto|auto]). }
         destruct K as (K1 & K2 & K3 & K4 & K5).
-        split; [|split; [congruence|right; split; [right; exact K1|exact K2]]].
-        rewrite K5. destruct K4 as [->| ->]; [exact Hd|reflexivity]. }
+        split; [|split; [congruence|right; split; [right; left; exact K1|exact K2]]].
+        rewrite K5. destruct K4 as [->| ->]; [exact Hd|reflexivity].
+      - (* stall *)
+        assert (Q : forall m, l_pc t <> PDone (ROk m)).
+        { destruct Ht as [[Hp|[e Hp]]|[_ Hq]]; [| |exact Hq]; intros m; rewrite Hp; discriminate. }
+        destruct (l_pc t) as [| | | | | | | | | | | | | | e0 | | r | | r | | | | | | |] eqn:Hp;
+          cbn beta iota in Hst; try (destruct (p_win P <=? now (fst s) + d)%N eqn:E);
+          inversion Hst; subst; cbn [dead by_code expired mains set_expired set_clock];
+          (split; [try reflexivity; exact Hd|]); (split; [exact Hm|]); right;
+          try (split; [right; right; exists d; cbn; exact Hk|cbn; intros m; discriminate]).
+        all: (split; [right; right; exists d; exact Hk|]; rewrite Hp; exact Q). }
     destruct Goal as (G1 & G2 & G3). split; [exact G1|]. split; [exact G2|].
     intros x Hx. destruct (in_upd_nth _ _ _ _ Hx) as [->|Hx']; [exact G3|exact (Hf x Hx')].
   Qed.
@@ -752,7 +843,7 @@ End Inv.
 
 (* ---------- concrete runs: witnesses against the pinned code, non-vacuity for the repaired code ---------- *)
 
-Definition P0 : params := {| p_tgt := 77; p_taddr := 0; p_qmax := 50; p_pre := fun _ => 0 |}.
+Definition P0 : params := {| p_tgt := 77; p_taddr := 0; p_qmax := 50; p_pre := fun _ => 0; p_win := 600 |}.
 Definition two_activators : list lo :=
   [init_lo 0 (KAct 101 0 true) false None; init_lo 1 (KAct 102 1 true) false None].
 Definition s0 (ts : list lo) : st sh lo := (init_sh (Some fresh_code), ts).
@@ -789,13 +880,14 @@ Lemma current_failed_append_leaves_nothing :
   finished (snd s) = true /\ errs (snd s) = 1 /\ mains (fst s) = [] /\ claim (fst s) = false /\ admk (fst s) = [].
 Proof. vm_compute. repeat split. Qed.
 
-Lemma premises_satisfiable : start_ok (s0 two_activators).
+Lemma premises_satisfiable : start_ok P0 (s0 two_activators).
 Proof.
-  split; [reflexivity|]. split.
+  split; [reflexivity|]. split; [|split].
   - intros t [<-|[<-|[]]]; left; reflexivity.
   - intros [|[|i]] [|[|j]] ti tj Hi Hj He; cbn in Hi, Hj; try reflexivity;
       try (destruct i; discriminate); try (destruct j; discriminate);
       inversion Hi; inversion Hj; subst; cbn in He; discriminate.
+  - cbn. discriminate.
 Qed.
 
 (* the schedule of the revoke race: the activator reads the code, the revocation runs to completion, the activator
@@ -841,3 +933,20 @@ Proof.
   vm_compute. split; [reflexivity|]. split; [reflexivity|]. split; [reflexivity|].
   eexists. split; [right; left; reflexivity|split; reflexivity].
 Qed.
+
+(* TIME.  Caller 0 takes the claim and stalls; 31 s pass; caller 1 (another client) activates the same code; caller 0 goes on. *)
+Definition two_activators_and_stall : list lo :=
+  [init_lo 0 (KAct 101 0 true) false None; init_lo 1 (KAct 102 1 true) false None; init_lo 2 (KStall 31) false None].
+Definition stall_schedule : list nat := repeat 0 4 ++ [2] ++ repeat 1 12 ++ repeat 0 12.
+
+(* repaired code (claim lives for the remaining window): the second caller is turned away *)
+Lemma current_stalled_holder_keeps_claim :
+  let s := run sh lo (tstep Current P0) (s0 two_activators_and_stall) stall_schedule in
+  finished (snd s) = true /\ oks (snd s) = 1 /\ errs (snd s) = 1 /\ length (mains (fst s)) = 1.
+Proof. vm_compute. repeat split. Qed.
+
+(* a claim marker that is only a 30 s lease lapses under the stalled holder: both activations succeed, two mappings *)
+Lemma lease30_refuted :
+  let s := run sh lo (tstep Lease30 P0) (s0 two_activators_and_stall) stall_schedule in
+  finished (snd s) = true /\ oks (snd s) = 2 /\ length (mains (fst s)) = 2.
+Proof. vm_compute. repeat split. Qed.
